@@ -2122,7 +2122,9 @@ class RawAlgorithmsMixIn:
         # INIT: compute the base point
         tmp, Q_data[0,:,:] = numpy.linalg.eigh(A_data[0,:,:])
 
-        # set output L_data
+        # set output L_data (a buffer passed as out= may hold the result of an earlier call:
+        # only the diagonal blocks are written below, the rest has to be zero)
+        L_data[...] = 0
         for n in range(N):
             L_data[0,n,n] = tmp[n]
 
